@@ -127,3 +127,24 @@ prop("C10", level="proof",
                 "dataclass __init__. " + _BND_NOTE, technique=_BND_TECH, explanation="external options frame: per-stage contracts + bounded pipeline check",
      roots=["ExternalImportFilter.filter", "_append_external_modules_to_module_list", "_remove_excluded_imports", "ImporteeModuleCalculator.calculate_importee_modules"],
      bounded=[_b("projects", "bounded_externals")], trusted_base=_TB)
+prop("C05", level="exploration",
+     level_text="Bounded exploration: random layer partitions (name lists, regex, mixed, unmentioned layers, modules in no layer) on graphs with prefix-named siblings; the real LayerRule "
+                "outcome is compared with the documented layer semantics for all 12 shapes and the two 'any layer' aliases.",
+     level_note=_BND_NOTE, technique=_BND_TECH, explanation="layer rule verdicts", roots=[], bounded=[_b("layers", "bounded_layer_verdicts")], trusted_base=_TB)
+prop("C06", level="other",
+     level_text="Mixed. PROVED (string view): alias resolution and merge -- PumlParser._unify / _get_modules_by_alias / _unify_module / _get_unified_modules: the dependencies of a component "
+                "are the union over all lines naming it as dependor by alias or by name, every identifier resolved; components = declared + dependors + dependees. BOUNDED: the regex "
+                "tokenisation of the file text (re.finditer over the whole file is outside SMT regex theories): diagrams generated from a random component relation by choosing declaration, reference and arrow forms and line order; the real parser's components and "
+                "dependencies are compared with the relation; files without tags must be rejected.",
+     level_note=_BND_NOTE + "Whole-file re.finditer tokenisation is outside SMT regex theories (DESIGN section 7).", technique=_BND_TECH, explanation="puml parsing", roots=["PumlParser._unify", "PumlParser._get_unified_modules", "PumlParser._get_modules_by_alias"],
+     bounded=[_b("diagrams", "bounded_puml")], trusted_base=_TB)
+prop("C07", level="other",
+     level_text="Mixed. PROVED: MultipleRuleApplier.assert_applies evaluates ALL rules, fails iff some rule is violated, collects exactly the messages of the violated rules and never turns an "
+                "erroring rule into a verdict (loop invariant with exceptional outcomes, any iteration order); ModulePrefixer.prefix / _add_prefix_to_module: with_base_module(p) == writing every "
+                "component as p.name (string view). BOUNDED: DependencyToRuleConverter (builds Rule objects through the fluent API inside comprehensions) and the end-to-end conformance claim: the real DiagramRule outcome is compared with the conformance predicate of the property on random component relations and perturbed import graphs, both "
+                "modes; aggregated messages are checked to contain every violated forbidden pair.",
+     level_note=_BND_NOTE, technique=_BND_TECH, explanation="diagram rule conformance", roots=["MultipleRuleApplier.assert_applies", "ModulePrefixer.prefix", "ModulePrefixer._add_prefix_to_module"], bounded=[_b("diagrams", "bounded_diagram_rule")], trusted_base=_TB)
+prop("C17", level="exploration",
+     level_text="Bounded exploration: labels, existence check and keyword pass-through observed at the intercepted drawing call for random trees and alias maps (nested aliases, prefix-named "
+                "siblings, regex metacharacters).",
+     level_note=_BND_NOTE + "draw_networkx / spring_layout intercepted with unittest.mock.", technique=_BND_TECH, explanation="plot labels", roots=[], bounded=[_b("layers", "bounded_labels")], trusted_base=_TB)
